@@ -43,14 +43,43 @@ Directed == { PackK(k) : k \in 1..8 } \cup { PackOneK(k) : k \in 1..8 } \cup {
     << <<<<97>>, <<255, 255, 255, 255, 255, 255, 255, 255>>>>, <<<<97, 98>>, UZero>>, <<<<98>>, <<0, 0, 1>>>> >>
   }
 
+\* Dense files: a chain of `depth` nodes, each with the same transitions on `syms` to the next
+\* one (the last to the empty final node), outputs weighted so that the value of a key is its
+\* rank.  k^depth keys in a few dozen bytes: the key count exceeds the file size, and every
+\* node is shared by many keys (a trie-shaped encoder cannot produce that).
+Pow(k, n) == LET RECURSIVE P(_) P(i) == IF i = 0 THEN 1 ELSE k * P(i - 1) IN P(n)
+DenseNode(syms, addr, w) ==
+    [final |-> FALSE, fout |-> UZero,
+     trans |-> [j \in 1..Len(syms) |-> [inp |-> syms[j], out |-> UFromNat((j - 1) * w), addr |-> addr]]]
+RECURSIVE EmitDense(_, _, _, _, _, _, _)
+EmitDense(syms, level, depth, bytes, last, target, version) ==
+    IF level = 0 THEN [bytes |-> bytes, addr |-> target]
+    ELSE LET enc == EncodeNode(DenseNode(syms, target, Pow(Len(syms), depth - level)), Len(bytes), last, version)
+             nb == bytes \o enc
+         IN  EmitDense(syms, level - 1, depth, nb, Len(nb) - 1, Len(nb) - 1, version)
+DenseKey(syms, depth, i) == [pos \in 1..depth |-> syms[((i \div Pow(Len(syms), depth - pos)) % Len(syms)) + 1]]
+DenseItems(syms, depth) == [i \in 1..Pow(Len(syms), depth) |-> <<DenseKey(syms, depth, i - 1), UFromNat(i - 1)>>]
+EncodeDense(TT, syms, depth, version) ==
+    LET hdr == NatLE8(version) \o NatLE8(0)
+        r == EmitDense(syms, depth, depth, hdr, 1, 0, version)
+        body == r.bytes \o NatLE8(Pow(Len(syms), depth)) \o NatLE8(r.addr)
+    IN  IF version >= 3 THEN body \o MaskedChecksum(TT, body) ELSE body
+DenseShapes == { <<<<97, 98, 99, 100>>, 4>>, <<<<0, 97, 255>>, 5>>, <<<<97, 98>>, 8>>, <<<<1, 2, 3, 4, 5, 6, 7>>, 3>> }
+
 Init == pc = "init" /\ c = <<>> /\ v = 0 /\ p = "" /\ T = MakeCrcTable
 Pick == /\ pc = "init" /\ pc' = "ready" /\ UNCHANGED T
         /\ c' \in SmallContents \cup Directed
         /\ v' \in {1, 2, 3}
         /\ p' \in {"final", "push"}
-Next == Pick
+PickDense == /\ pc = "init" /\ pc' = "dense" /\ UNCHANGED T
+             /\ c' \in DenseShapes
+             /\ v' \in {1, 2, 3}
+             /\ p' = "dense"
+Next == Pick \/ PickDense
 Spec == Init /\ [][Next]_vars
 
-Emit == pc = "ready" =>
+Emit == /\ pc = "ready" =>
           PrintT(<<"REPLAY", ToJson([version |-> v, placement |-> p, items |-> c, bytes |-> EncodeFile(T, c, v, 0, p)])>>)
+        /\ pc = "dense" =>
+          PrintT(<<"REPLAY", ToJson([version |-> v, placement |-> p, items |-> DenseItems(c[1], c[2]), bytes |-> EncodeDense(T, c[1], c[2], v)])>>)
 =============================================================================
